@@ -17,7 +17,7 @@ func init() { Register(c10{}) }
 func (c10) ID() string    { return "C10" }
 func (c10) Level() string { return "fault_enumeration" }
 func (c10) Rule() string {
-	return "workload = valid file from a seeded fault-free writer run (>= 2 row groups in half of the files) x source kind {ReadSeeker, ReadSeeker+ByteReader}. Cases per file: for EVERY source call k (Read, ReadByte and Seek share one counter) of the fault-free read: err0 transient (always); partial (n>0 bytes + error), early_eof ((0, io.EOF) before the end), and the sticky variants (fail from call k on) at a seeded 1-in-8 sample of k in quick and at every k in thorough; a Seek call fails with an error whatever the kind. Thorough adds an arm where the faulted read is also randomly fragmented. Non-trivial = the fault actually fired (the source returned it); distinct = distinct (file digest, source kind, k, kind)."
+	return "workload = valid file from a seeded fault-free writer run (>= 2 row groups in half of the files) x source kind {ReadSeeker, ReadSeeker+ByteReader}. Cases per file: for EVERY source call k (Read, ReadByte and Seek share one counter) of the fault-free read: err0 transient (always); partial (n>0 bytes + error), early_eof ((0, io.EOF) before the end), and the sticky variants (fail from call k on) at a seeded 1-in-8 sample of k in quick and at every k in thorough; a Seek call fails with an error whatever the kind. Thorough adds an arm where the faulted read is also randomly fragmented, and 1% files of the large class (pages of 100..1200 records) with a seeded sample of about 400 call positions. Non-trivial = the fault actually fired (the source returned it); distinct = distinct (file digest, source kind, k, kind)."
 }
 func (c10) Assumptions() []string {
 	return []string{
@@ -47,6 +47,7 @@ func (p c10) Run(runseed uint64, tier string, acc *Acc) []*core.Violation {
 	o.MaxOps = 16
 	if tier == "thorough" {
 		o.MaxOps = 28
+		o.LargePct = 1
 	}
 	f, ok := genFile(r, o)
 	acc.Runs++
@@ -69,7 +70,13 @@ func (p c10) Run(runseed uint64, tier string, acc *Acc) []*core.Violation {
 	var vios []*core.Violation
 	nontrivial := 0
 	fragArm := tier == "thorough" && r.Chance(1, 4)
+	if f.W.Large {
+		acc.Inc("class/large")
+	}
 	for k := 1; k <= m; k++ {
+		if f.W.Large && r.Intn(m) >= 400 {
+			continue // large class: a seeded sample of about 400 call positions
+		}
 		faults := []core.SrcFault{{K: k, Kind: "err0"}}
 		if tier == "thorough" || r.Chance(1, 8) {
 			faults = append(faults,
